@@ -1,382 +1,9 @@
-(* C02 simulation, part 2: the per-instance relation P2, the observer-only invariant Rd (one live
-   instance per name outside the dup/zombie windows), frame lemmas.  See Props/C02.v for the statements. *)
+(* C02 simulation: P2all is preserved by the own-thread events that need no argument (heavy, brute force). *)
 From Coq Require Import List ZArith NArith Bool Lia.
 From RecordUpdate Require Import RecordSet.
 From PC.Base Require Import Assoc.
-From PC.Sup Require Import Model Monitors Tactics Sim ObsFacts Effects RelCore LemC02 RelC02t.
+From PC.Sup Require Import Model Monitors Tactics Sim ObsFacts Effects RelCore LemC02 RelC02defs.
 Import ListNotations RecordSetNotations.
-
-Definition predec_pc (p : ipc) : bool :=
-  match p with IPreStart | IPreLaunch | IStateSet | IAlive | IExited _ | ICodeWritten _ => true | _ => false end.
-Definition launched_pc (p : ipc) : bool :=
-  match p with IStateSet | IAlive | IExited _ | ICodeWritten _ => true | _ => false end.
-Definition gone_pc (p : ipc) : bool := match p with IWgDone | IGone => true | _ => false end.
-Definition launch_pc (p : ipc) : bool := match p with IPreLaunch | IStateSet => true | _ => false end.
-
-Definition Pok (x : inst) (c : Z) : Prop :=
-  policy_allows (pol (cf x)) c = true /\ (maxr (cf x) = 0 \/ launches x <= maxr (cf x)).
-
-(* why an instance gave up instead of relaunching *)
-Definition GaveUp (s : sys) (x : inst) (xo : oinst) (c : Z) : Prop :=
-  o_stopreq xo = true \/ policy_allows (pol (cf x)) c = false \/
-  (maxr (cf x) <> 0 /\ maxr (cf x) <= restarts (vis_of s (nm x))).
-
-Record P2 (s : sys) (o : obs) (x : inst) (xo : oinst) : Prop := mkP2 {
-  p_commit : W2 o = false -> commit_pc (pc x) = true -> o_commit xo = true;
-  p_stop : W2 o = false -> o_stopreq xo = true -> commit_pc (pc x) = false;
-  p_exited : forall c, exited x = Some c -> o_code xo = Some c /\ pc x = IAlive /\ alive x = false;
-  p_alive : alive x = true -> pc x = IAlive;
-  p_code : forall c, pc x = IExited c \/ pc x = ICodeWritten c -> o_code xo = Some c;
-  p_decided : forall c, pc x = IWillRestart c \/ pc x = IRestarting c \/ pc x = IBackoff c ->
-              o_code xo = Some c /\ Pok x c;
-  p_relaunch : launch_pc (pc x) = true -> 1 <= launches x ->
-               exists c, o_code xo = Some c /\ Pok x c /\ o_elapsed xo = true;
-  p_gaveup : forall c, (pc x = IEnding SCompleted c \/ exists b, pc x = IInEnd SCompleted c b) ->
-             o_code xo = Some c /\ GaveUp s x xo c;
-  p_restarts : launches x <= restarts (vis_of s (nm x)) + 1 /\
-               (relaunch_pc (pc x) = true -> launches x <= restarts (vis_of s (nm x)));
-  p_pre : prestart_pc (pc x) = true -> launches x = 0;
-  p_fstopped : f_stopped x = true -> o_stopreq xo = true;
-  p_runctx : l_runctx x = true -> o_stopreq xo = true \/ inend_pc (pc x) = true;
-  p_endst : o_endst xo <> None -> o_stopreq xo = true \/ inend_pc (pc x) = true;
-  p_gone : o_gone xo = true -> gone_pc (pc x) = true;
-  p_nostop : W4 o = false -> o_stopreq xo = true -> predec_pc (pc x) = true -> f_stopped x = true;
-  p_status : W4 o = false -> launched_pc (pc x) = true -> st (vis_of s (nm x)) <> SPending
-}.
-
-Definition P2all (s : sys) (o : obs) : Prop :=
-  forall j x xo, get j (insts s) = Some x -> get j (oi o) = Some xo -> P2 s o x xo.
-
-(* ---- frame: what P2 reads ------------------------------------------------------------------------------ *)
-Definition ikeep (x x' : inst) : Prop :=
-  nm x' = nm x /\ cf x' = cf x /\ pc x' = pc x /\ launches x' = launches x /\ alive x' = alive x /\
-  exited x' = exited x /\ f_stopped x' = f_stopped x /\ l_runctx x' = l_runctx x.
-Definition okeep (xo xo' : oinst) : Prop :=
-  o_commit xo' = o_commit xo /\ o_stopreq xo' = o_stopreq xo /\ o_code xo' = o_code xo /\
-  o_elapsed xo' = o_elapsed xo /\ o_endst xo' = o_endst xo /\ o_gone xo' = o_gone xo.
-Definition vkeep (s s' : sys) (x : inst) : Prop :=
-  restarts (vis_of s (nm x)) <= restarts (vis_of s' (nm x)) /\
-  (st (vis_of s' (nm x)) = SPending -> st (vis_of s (nm x)) = SPending \/ launched_pc (pc x) = false).
-Definition wkeep (o o' : obs) : Prop := (W2 o' = false -> W2 o = false) /\ (W4 o' = false -> W4 o = false).
-
-Lemma ikeep_refl x : ikeep x x. Proof. unfold ikeep; repeat split. Qed.
-Lemma okeep_refl x : okeep x x. Proof. unfold okeep; repeat split. Qed.
-Lemma vkeep_refl s x : vkeep s s x. Proof. unfold vkeep; split; auto. Qed.
-Lemma wkeep_refl o : wkeep o o. Proof. unfold wkeep; split; auto. Qed.
-Lemma wkeep_step cs o e : wkeep o (obs_step cs o e).
-Proof.
-  split; intros H.
-  - destruct (W2 o) eqn:E; [|reflexivity]. now rewrite (W2_mono cs o e E) in H.
-  - destruct (W4 o) eqn:E; [|reflexivity]. now rewrite (W4_mono cs o e E) in H.
-Qed.
-
-Lemma P2_frame s o x xo s' o' x' xo' :
-  P2 s o x xo -> ikeep x x' -> okeep xo xo' -> vkeep s s' x -> wkeep o o' -> P2 s' o' x' xo'.
-Proof.
-  intros [] (I1 & I2 & I3 & I4 & I5 & I6 & I7 & I8) (O1 & O2 & O3 & O4 & O5 & O6) (V1 & V2) (Wa & Wb).
-  constructor; unfold Pok, GaveUp in *; rewrite ?I1, ?I2, ?I3, ?I4, ?I5, ?I6, ?I7, ?I8, ?O1, ?O2, ?O3, ?O4, ?O5, ?O6; auto.
-  - intros c Hc. destruct (p_gaveup0 c Hc) as (A & B). split; [exact A|].
-    destruct B as [B|[B|[B1 B2]]]; auto. right; right. split; [exact B1|lia].
-  - destruct p_restarts0 as [A B]. split; [lia|]. intros Hr. specialize (B Hr). lia.
-  - intros Hw Hl Hs. destruct (V2 Hs) as [Hs'|Hs']; [|congruence]. revert Hs'. apply p_status0; auto.
-Qed.
-
-(* ---- backward frames of the observer: every instance of o' comes from one of o ----------------------- *)
-Section Back.
-Context (Rel : oinst -> oinst -> Prop).
-Context (Rrefl : forall x, Rel x x) (Rtrans : forall x y z, Rel x y -> Rel y z -> Rel x z).
-Context (Rsucc : forall x, Rel x (x <| o_succ := true |>)).
-
-Definition oback (o o' : obs) : Prop :=
-  forall j x', get j (oi o') = Some x' -> exists x, get j (oi o) = Some x /\ Rel x x'.
-
-Lemma oback_refl o : oback o o.
-Proof. intros j x H. eauto. Qed.
-Lemma oback_trans o1 o2 o3 : oback o1 o2 -> oback o2 o3 -> oback o1 o3.
-Proof.
-  intros H1 H2 j z Hz. destruct (H2 j z Hz) as (y & Hy & L2). destruct (H1 j y Hy) as (x & Hx & L1). eauto.
-Qed.
-Lemma oback_eq o o' : oi o' = oi o -> oback o o'.
-Proof. intros E j x H. rewrite E in H. eauto. Qed.
-Lemma oback_oi_upd i f o : (forall x, Rel x (f x)) -> oback o (oi_upd i f o).
-Proof.
-  intros Hf j x'. rewrite oi_upd_get. destruct (N.eqb i j); [|eauto].
-  destruct (get j (oi o)) as [x|]; cbn; [|discriminate]. intros [= <-]. eauto.
-Qed.
-Lemma oback_on_upd n f o : oback o (on_upd n f o).
-Proof. apply oback_eq, on_upd_oi. Qed.
-Lemma oback_fold_oi_upd (f : oinst -> oinst) l : (forall x, Rel x (f x)) ->
-  forall o, oback o (fold_left (fun o i => oi_upd i f o) l o).
-Proof.
-  intros Hf. induction l as [|a l IH]; intros o; cbn; [apply oback_refl|].
-  eapply oback_trans; [apply (oback_oi_upd a f o Hf)|apply IH].
-Qed.
-Lemma oback_refresh o : oback o (refresh_succ o).
-Proof.
-  intros j x'. rewrite refresh_get. destruct (get j (oi o)) as [x|]; cbn; [|discriminate].
-  intros [= <-]. exists x. split; [reflexivity|]. destruct (_ && _); auto.
-Qed.
-End Back.
-
-Lemma okeep_trans x y z : okeep x y -> okeep y z -> okeep x z.
-Proof. unfold okeep. intros (A1 & A2 & A3 & A4 & A5 & A6) (B1 & B2 & B3 & B4 & B5 & B6). repeat split; congruence. Qed.
-#[export] Hint Resolve okeep_refl okeep_trans oinst_le_refl oinst_le_trans : core.
-
-Lemma oinst_le_succ x : oinst_le x (x <| o_succ := true |>).
-Proof. unfold oinst_le; cbn; repeat split; auto. Qed.
-
-Ltac rel_side := first [exact okeep_trans | exact oinst_le_trans | exact okeep_refl | exact oinst_le_refl | exact oinst_le_succ | solve [auto]].
-Ltac oback_close side :=
-  repeat first
-  [ apply oback_refl; rel_side
-  | match goal with
-    | |- oback ?R ?o (oi_upd ?i ?f ?X) =>
-        apply (oback_trans R ltac:(rel_side) o X); [|apply oback_oi_upd; side]
-    | |- oback ?R ?o (on_upd ?n ?f ?X) =>
-        apply (oback_trans R ltac:(rel_side) o X); [|apply oback_on_upd; rel_side]
-    | |- oback ?R ?o (fold_left (fun o i => oi_upd i ?f o) ?l ?X) =>
-        apply (oback_trans R ltac:(rel_side) o X); [|apply oback_fold_oi_upd; [rel_side|rel_side|side]]
-    | |- oback ?R ?o (RecordSet.set _ _ ?X) =>
-        apply (oback_trans R ltac:(rel_side) o X); [|apply oback_eq; [rel_side|reflexivity]]
-    end ].
-
-(* events that leave everything P2 reads in the observer's instance records untouched *)
-Definition oirr (e : event) : bool :=
-  match e with
-  | ENewInst _ _ | ERunChecked false | EInstExit | ELaunch _ | ECmdExit _ _ | EBackoffElapsed | EProcEnd _ _
-  | ENoRestart _ | EStopEnter _ _ | EStopPending _ | EShutdownOrder _ => false
-  | _ => true
-  end.
-
-Ltac okeep_side := intros; unfold okeep; cbn; repeat match goal with |- context[if ?b then _ else _] => destruct b; cbn end; repeat split; reflexivity.
-
-Lemma obs_step_keep cs o th e : oirr e = true -> oback okeep o (obs_step cs o (th, e)).
-Proof.
-  intros Hirr. unfold obs_step. eapply oback_trans; [rel_side| |apply oback_refresh; [rel_side|okeep_side]].
-  destruct e; try discriminate Hirr; cbn [fst snd];
-  try (destruct (ev_inst o th _) eqn:Ev);
-  try match goal with |- context[match ?b with true => _ | false => _ end] => destruct b end;
-  try discriminate Hirr; unfold note_late_commit;
-  repeat match goal with |- context[if ?b then _ else _] => destruct b end;
-  try (apply oback_refl; rel_side); oback_close okeep_side.
-Qed.
-
-Ltac ole_side := oinst_le_tac.
-
-Lemma obs_step_back cs o th e : (forall i n, e <> ENewInst i n) -> oback oinst_le o (obs_step cs o (th, e)).
-Proof.
-  intros Hnew. unfold obs_step. eapply oback_trans; [rel_side| |apply oback_refresh; rel_side].
-  destruct e; try (exfalso; eapply Hnew; reflexivity); cbn [fst snd];
-  try (destruct (ev_inst o th _) eqn:Ev);
-  try match goal with |- context[match ?b with true => _ | false => _ end] => destruct b end;
-  unfold note_late_commit;
-  repeat match goal with |- context[if ?b then _ else _] => destruct b end;
-  try (apply oback_refl; rel_side); oback_close ole_side.
-Qed.
-
-(* ---- Rd: outside the dup/zombie windows, of two instances of a name one has ended and left ------------ *)
-Definition Rd (o : obs) : Prop :=
-  w_dup o = false -> w_zombie o = false ->
-  forall i j xi xj, i <> j -> get i (oi o) = Some xi -> get j (oi o) = Some xj -> o_nm xi = o_nm xj ->
-  (o_ended xi = true /\ o_gone xi = true) \/ (o_ended xj = true /\ o_gone xj = true).
-
-Lemma Rd_init cs : Rd (obs0 cs).
-Proof. intros _ _ i j xi xj _ H. discriminate H. Qed.
-
-Lemma dupz_mono cs o e : w_dup (obs_step cs o e) = false -> w_zombie (obs_step cs o e) = false ->
-  w_dup o = false /\ w_zombie o = false.
-Proof.
-  pose proof (obs_step_flags_mono cs o e) as H. unfold flag_le, windows_of in H.
-  inversion H as [|? ? ? ? Hz H1]; subst. inversion H1 as [|? ? ? ? _ H2]; subst.
-  inversion H2 as [|? ? ? ? _ H3]; subst. inversion H3 as [|? ? ? ? _ H4]; subst.
-  inversion H4 as [|? ? ? ? _ H5]; subst. inversion H5 as [|? ? ? ? Hd _]; subst.
-  intros A B. split.
-  - destruct (w_dup o); [rewrite Hd in A by reflexivity; discriminate|reflexivity].
-  - destruct (w_zombie o); [rewrite Hz in B by reflexivity; discriminate|reflexivity].
-Qed.
-
-Lemma get_in_vals {A} k (v : A) m : get k m = Some v -> In v (vals m).
-Proof. intros H. apply get_in in H. unfold vals. apply in_map_iff. exists (k, v). auto. Qed.
-
-Lemma Rd_step cs o th e : (forall i n, e = ENewInst i n -> get i (oi o) = None) -> Rd o -> Rd (obs_step cs o (th, e)).
-Proof.
-  intros Hnew HR Hd Hz. destruct (dupz_mono _ _ _ Hd Hz) as [Hd0 Hz0]. specialize (HR Hd0 Hz0).
-  assert (Hne : (forall i n, e <> ENewInst i n) \/ exists i n, e = ENewInst i n).
-  { destruct e; try (left; intros; discriminate). right; eauto. }
-  destruct Hne as [Hne|(i0 & n0 & ->)].
-  - pose proof (obs_step_back cs o th e Hne) as Hb.
-    intros i j xi' xj' Hij Hi Hj Hn.
-    destruct (Hb i xi' Hi) as (xi & Ei & Li). destruct (Hb j xj' Hj) as (xj & Ej & Lj).
-    destruct Li as (Li1 & Li2 & Li3 & _). destruct Lj as (Lj1 & Lj2 & Lj3 & _).
-    destruct (HR i j xi xj Hij Ei Ej) as [[A B]|[A B]]; [congruence|left|right]; auto.
-  - specialize (Hnew _ _ eq_refl).
-    assert (Hex : forall (f : oinst -> bool) l x, existsb f l = false -> In x l -> f x = false).
-    { intros f l x Hf Hin. destruct (f x) eqn:E; [|reflexivity]. rewrite <- Hf. symmetry. apply existsb_exists. eauto. }
-    assert (Hold : forall j xj, get j (oi o) = Some xj -> o_nm xj = n0 -> o_ended xj = true /\ o_gone xj = true).
-    { intros j xj Ej En. unfold obs_step in Hd, Hz. cbn in Hd, Hz.
-      apply orb_false_iff in Hd. destruct Hd as [_ Hd]. apply orb_false_iff in Hz. destruct Hz as [_ Hz].
-      pose proof (get_in_vals _ _ _ Ej) as Hin.
-      pose proof (Hex _ _ _ Hd Hin) as A. pose proof (Hex _ _ _ Hz Hin) as B. cbn in A, B.
-      rewrite En, N.eqb_refl in A, B. cbn in A, B. apply negb_false_iff in A. rewrite A in B. cbn in B.
-      apply negb_false_iff in B. auto. }
-    assert (HRf : forall (c : bool) (x : oinst),
-                  o_nm (if c then x <| o_succ := true |> else x) = o_nm x /\
-                  o_ended (if c then x <| o_succ := true |> else x) = o_ended x /\
-                  o_gone (if c then x <| o_succ := true |> else x) = o_gone x).
-    { intros [] x; cbn; auto. }
-    intros i j xi' xj' Hij Hi Hj Hn. unfold obs_step in Hi, Hj. cbn [fst snd ev_inst] in Hi, Hj.
-    rewrite refresh_get in Hi, Hj. cbn [oi] in Hi, Hj. cbn in Hi, Hj. rewrite get_set in Hi, Hj.
-    destruct (N.eqb_spec i0 i) as [<-|Hi0]; destruct (N.eqb_spec i0 j) as [<-|Hj0]; try congruence.
-    + destruct (get j (oi o)) as [xj|] eqn:Ej; [|discriminate]. cbn in Hi, Hj. injection Hi as <-. injection Hj as <-.
-      right. match goal with |- context[if ?c then xj <| o_succ := true |> else xj] => destruct (HRf c xj) as (A & B & C) end.
-      rewrite B, C. apply (Hold j xj Ej). rewrite <- A, <- Hn. reflexivity.
-    + destruct (get i (oi o)) as [xi|] eqn:Ei; [|discriminate]. cbn in Hi, Hj. injection Hi as <-. injection Hj as <-.
-      left. match goal with |- context[if ?c then xi <| o_succ := true |> else xi] => destruct (HRf c xi) as (A & B & C) end.
-      rewrite B, C. apply (Hold i xi Ei). rewrite <- A, Hn. reflexivity.
-    + destruct (get i (oi o)) as [xi|] eqn:Ei; [|discriminate]. destruct (get j (oi o)) as [xj|] eqn:Ej; [|discriminate].
-      cbn in Hi, Hj. injection Hi as <-. injection Hj as <-.
-      match goal with |- context[if ?c then xi <| o_succ := true |> else xi] => destruct (HRf c xi) as (A1 & B1 & C1) end.
-      match goal with |- context[if ?c then xj <| o_succ := true |> else xj] => destruct (HRf c xj) as (A2 & B2 & C2) end.
-      rewrite B1, C1, B2, C2. apply (HR i j xi xj Hij Ei Ej). congruence.
-Qed.
-
-(* ---- backward frames of the model ---------------------------------------------------------------------- *)
-Definition vrel (s s' : sys) : Prop :=
-  forall n, restarts (vis_of s n) <= restarts (vis_of s' n) /\ (st (vis_of s' n) = SPending -> st (vis_of s n) = SPending).
-Definition sback (s s' : sys) : Prop :=
-  (forall j x', get j (insts s') = Some x' -> exists x, get j (insts s) = Some x /\ ikeep x x') /\ vrel s s'.
-
-Lemma ikeep_trans x y z : ikeep x y -> ikeep y z -> ikeep x z.
-Proof. unfold ikeep. intuition congruence. Qed.
-Lemma vrel_refl s : vrel s s. Proof. intros n; split; auto. Qed.
-Lemma vrel_trans s1 s2 s3 : vrel s1 s2 -> vrel s2 s3 -> vrel s1 s3.
-Proof. intros A B n. destruct (A n), (B n). split; [lia|auto]. Qed.
-Lemma sback_refl s : sback s s.
-Proof. split; [intros j x H; eauto using ikeep_refl|apply vrel_refl]. Qed.
-Lemma sback_trans s1 s2 s3 : sback s1 s2 -> sback s2 s3 -> sback s1 s3.
-Proof.
-  intros [A1 V1] [A2 V2]. split; [|eapply vrel_trans; eauto].
-  intros j z Hz. destruct (A2 j z Hz) as (y & Hy & L2). destruct (A1 j y Hy) as (x & Hx & L1). eauto using ikeep_trans.
-Qed.
-Lemma sback_eq s s' : insts s' = insts s -> viss s' = viss s -> sback s s'.
-Proof.
-  intros A B. split.
-  - intros j x H. rewrite A in H. eauto using ikeep_refl.
-  - intros n. unfold vis_of. rewrite B. split; auto.
-Qed.
-Lemma sback_upd_inst i f s : (forall x, ikeep x (f x)) -> sback s (upd_inst i f s).
-Proof.
-  intros Hf. split.
-  - intros j x'. rewrite insts_upd_inst. destruct (N.eqb i j); [|eauto using ikeep_refl].
-    destruct (get j (insts s)) as [x|]; cbn; [|discriminate]. intros [= <-]. eauto.
-  - intros n. rewrite vis_of_upd_inst. split; auto.
-Qed.
-Lemma sback_fold_upd_inst (f : inst -> inst) l : (forall x, ikeep x (f x)) ->
-  forall s, sback s (fold_left (fun s i => upd_inst i f s) l s).
-Proof.
-  intros Hf. induction l as [|a l IH]; intros s; cbn; [apply sback_refl|].
-  eapply sback_trans; [apply (sback_upd_inst a f s Hf)|apply IH].
-Qed.
-Lemma vis_of_upd_vis n f s m :
-  vis_of (upd_vis n f s) m = if N.eqb n m then match get m (viss s) with Some v => f v | None => vis_of s m end else vis_of s m.
-Proof.
-  unfold vis_of. rewrite viss_upd_vis. destruct (N.eqb n m); [|reflexivity]. destruct (get m (viss s)); reflexivity.
-Qed.
-Lemma sback_upd_vis n f s :
-  (forall v, restarts v <= restarts (f v) /\ (st (f v) = SPending -> st v = SPending)) -> sback s (upd_vis n f s).
-Proof.
-  intros Hf. split.
-  - intros j x H. rewrite upd_vis_insts in H. eauto using ikeep_refl.
-  - intros m. rewrite vis_of_upd_vis. destruct (N.eqb n m); [|split; auto].
-    unfold vis_of. destruct (get m (viss s)) as [v|]; [apply Hf|split; auto].
-Qed.
-
-Ltac ikeep_side := intros; unfold ikeep; cbn; repeat split; reflexivity.
-Ltac vkeep_side := intros; cbn; repeat match goal with |- context[match ?b with _ => _ end] => destruct b; cbn end;
-                   split; [lia|try discriminate; auto].
-Ltac sback_close :=
-  unfold set_pc, end_release_early, end_finish, write_status;
-  repeat first
-  [ apply sback_refl
-  | match goal with
-    | |- sback ?s (upd_inst ?i ?f ?X) =>
-        apply (sback_trans s X); [|apply sback_upd_inst; ikeep_side]
-    | |- sback ?s (upd_vis ?n ?f ?X) =>
-        apply (sback_trans s X); [|apply sback_upd_vis; vkeep_side]
-    | |- sback ?s (fold_left (fun s i => upd_inst i ?f s) ?l ?X) =>
-        apply (sback_trans s X); [|apply sback_fold_upd_inst; ikeep_side]
-    | |- sback ?s (set_thread ?th ?t ?X) =>
-        apply (sback_trans s X); [|apply sback_eq; reflexivity]
-    | |- sback ?s (RecordSet.set _ _ ?X) =>
-        apply (sback_trans s X); [|apply sback_eq; reflexivity]
-    | |- sback ?s (if ?b then _ else _) => destruct b
-    | |- sback ?s (match ?b with _ => _ end) => destruct b
-    end ].
-
-Lemma sback_reg s th e s' : (forall i n, e <> ENewInst i n) -> step_reg s th e = Some s' -> sback s s'.
-Proof. intros Hne H. destruct e; try (exfalso; eapply Hne; reflexivity); kind_cases H; sback_close. Qed.
-Lemma sback_stop s th e s' : step_stop s th e = Some s' -> sback s s'.
-Proof. intros H. destruct e; kind_cases H; sback_close. Qed.
-Lemma sback_api s th e s' : (forall i, e <> ENoRestart i) -> step_api s th e = Some s' -> sback s s'.
-Proof. intros Hne H. destruct e; try (exfalso; eapply Hne; reflexivity); kind_cases H; sback_close. Qed.
-Lemma sback_shutdown s th e s' : (forall l, e <> EShutdownOrder l) -> step_shutdown s th e = Some s' -> sback s s'.
-Proof. intros Hne H. destruct e; try (exfalso; eapply Hne; reflexivity); kind_cases H; sback_close. Qed.
-Lemma sback_ordered s th i s' : step_ordered_go s th i = Some s' -> sback s s'.
-Proof. intros H. kind_cases H; sback_close. Qed.
-Lemma sback_env s th e s' : (forall i c, e <> ECmdExit i c) -> step_env s th e = Some s' -> sback s s'.
-Proof. intros Hne H. destruct e; try (exfalso; eapply Hne; reflexivity); kind_cases H; sback_close. Qed.
-
-Lemma P2all_frame s o s' o' : P2all s o -> sback s s' -> oback okeep o o' -> wkeep o o' -> P2all s' o'.
-Proof.
-  intros HP [A V] B Wk j x' xo' Hx' Hxo'.
-  destruct (A j x' Hx') as (x & Ex & Ik). destruct (B j xo' Hxo') as (xo & Exo & Ok).
-  eapply P2_frame; [apply (HP j x xo Ex Exo)|exact Ik|exact Ok| |exact Wk].
-  destruct (V (nm x)) as [V1 V2]. split; auto.
-Qed.
-
-Lemma vrel_vkeep s s' x : vrel s s' -> vkeep s s' x.
-Proof. intros V. destruct (V (nm x)) as [V1 V2]. split; auto. Qed.
-
-Ltac vrel_tac :=
-  unfold set_pc, end_release_early, end_finish, write_status; intros n9; autorewrite with sup; rewrite ?vis_of_upd_vis;
-  unfold vis_of;
-  repeat match goal with |- context[N.eqb ?a n9] => destruct (N.eqb a n9) end;
-  repeat match goal with |- context[match get n9 ?m with _ => _ end] => destruct (get n9 m) end;
-  cbn; split; auto; try lia; try discriminate.
-
-Lemma st_upd_vis n f s m : (forall v, st (f v) = st v) -> st (vis_of (upd_vis n f s) m) = st (vis_of s m).
-Proof.
-  intros Hf. rewrite vis_of_upd_vis. destruct (N.eqb n m); [|reflexivity]. unfold vis_of.
-  destruct (get m (viss s)); [apply Hf|reflexivity].
-Qed.
-Lemma restarts_upd_vis n f s m : (forall v, restarts (f v) = restarts v) -> restarts (vis_of (upd_vis n f s) m) = restarts (vis_of s m).
-Proof.
-  intros Hf. rewrite vis_of_upd_vis. destruct (N.eqb n m); [|reflexivity]. unfold vis_of.
-  destruct (get m (viss s)); [apply Hf|reflexivity].
-Qed.
-
-Ltac p2_pre :=
-  repeat match goal with |- P2 _ _ ?X _ =>
-    match X with
-    | context[match ?v with _ => _ end] => destruct v eqn:?
-    | context[if ?v then _ else _] => destruct v eqn:?
-    end end.
-(* solve one clause of P2 for the acting instance after its record has been destructed *)
-Ltac p2_clause :=
-  unfold set_pc in *; autorewrite with sup in *;
-  rewrite ?st_upd_vis, ?restarts_upd_vis in * by reflexivity;
-  cbn in *; intros;
-  repeat match goal with
-  | H : _ \/ _ |- _ => destruct H
-  | H : exists _, _ |- _ => destruct H
-  | H : _ /\ _ |- _ => destruct H
-  | H : forall c, exited ?x = Some c -> _, H' : exited ?x = Some ?c0 |- _ => specialize (H _ H')
-  | H : ?A -> _, H' : ?A |- _ => specialize (H H')
-  | H : true = true -> _ |- _ => specialize (H eq_refl)
-  end;
-  try discriminate; try congruence; auto;
-  try (split; auto; try lia; try discriminate; fail);
-  try (intuition (try discriminate; try congruence; try lia; eauto); fail).
 
 Section Own.
 Context (cs : amap pconf).
@@ -386,14 +13,12 @@ Ltac own_tac HP H :=
   match goal with E : get ?th (thinst ?s) = Some ?i, E0 : get ?i (insts ?s) = Some ?x |- _ =>
     intros j9 x9 xo9 Hx9 Hxo9; unfold set_pc in Hx9; autorewrite with sup in Hx9; cbn [fst snd] in Hx9;
     destruct (N.eqb_spec i j9) as [<-|Hne];
-    [ rewrite E0 in Hx9; cbn in Hx9; injection Hx9 as <-; pose proof (HP _ _ _ E0 Hxo9) as HPx; p2_pre; destruct HPx; constructor
+    [ rewrite E0 in Hx9; cbn in Hx9; injection Hx9 as <-; pose proof (HP _ _ _ E0 Hxo9) as HPx; p2_pre; destruct HPx;
+      try match goal with E : pc _ = _ |- _ => rewrite E in * end; cbn in *; constructor
     | eapply P2_frame; [apply (HP j9 x9 xo9 Hx9 Hxo9)|apply ikeep_refl|apply okeep_refl|apply vrel_vkeep; vrel_tac|apply wkeep_refl] ]
   end;
-  try match goal with E : pc _ = _ |- _ => rewrite E in * end;
-  try (p2_clause; fail).
-
-Definition own_special (e : event) : bool :=
-  match e with EWaitReturn _ | EExitCode _ | ERestartDecision _ | EBackoffWait _ | EBackoffCancelled => true | _ => false end.
+  try match goal with E : pc _ = _ |- _ => rewrite E end;
+  try (p2_goal; fail).
 
 Lemma P2all_own_gen s o th e s' : P2all s o -> oirr e = true -> own_special e = false -> step_own s th e = Some s' -> P2all s' o.
 Proof.
